@@ -668,11 +668,27 @@ def c14_configs():
                 for eb in exports:
                     for ddef in [(), ('x',)]:
                         for order in (('ma', 'mb'), ('mb', 'ma')):
-                            yield {'ma': (da, ea), 'mb': (db, eb), 'default': (ddef, None), 'order': order}
+                            yield {'ma': (da, ea), 'mb': (db, eb), 'default': (ddef, None), 'order': order, 'same': None}
+    # the same configurations with every definition bound to ONE AND THE SAME object (an interned symbol, the empty list, t):
+    # two visible definitions are a conflict whatever their values are
+    for same in ("'same", 'nil', 't'):
+        for da in subsets[1:]:
+            for ea in exports:
+                for db in subsets[1:]:
+                    for eb in (None, ('x',)):
+                        yield {'ma': (da, ea), 'mb': (db, eb), 'default': ((), None), 'order': ('ma', 'mb'), 'same': same}
 
 VAL = {('ma', 'x'): 11, ('ma', 'y'): 12, ('mb', 'x'): 21, ('mb', 'y'): 22, ('default', 'x'): 31}
 
-def c14_module_text(mod, defs, exports):
+def c14_val(cfg, mod, n):
+    """(expression that defines it, printed value)"""
+    same = cfg.get('same') if isinstance(cfg, dict) else None
+    if same:
+        # bare `t` and `nil` are prelude globals, invisible inside a freshly loaded module: spell the objects themselves
+        return {"'same": "'same", 'nil': '()', 't': '(quote t)'}[same], {"'same": 'same', 'nil': '()', 't': 't'}[same]
+    return str(VAL[(mod, n)]), str(VAL[(mod, n)])
+
+def c14_module_text(mod, defs, exports, cfg=None):
     # the probes are defined first: macro expansion of a definition already resolves the symbols of its body,
     # so a probe must be created while the name is not yet ambiguous
     forms = []
@@ -681,7 +697,7 @@ def c14_module_text(mod, defs, exports):
         # a macro is a function too: its expander body looks the name up from the macro's HOME module, whoever uses the macro
         forms.append(f"(define (quote mprobe-{mod}-{n}) (macro () (list (quote quote) {n})) (list))")
     for n in defs:
-        forms.append(f"(define (quote {n}) {VAL[(mod, n)]} (list))")
+        forms.append(f"(define (quote {n}) {c14_val(cfg, mod, n)[0]} (list))")
     if exports is not None:
         forms.append("(export (quote (" + ' '.join(list(exports) + [f'probe-{mod}-x', f'probe-{mod}-y', f'mprobe-{mod}-x', f'mprobe-{mod}-y']) + ")))")
     return ' '.join(forms)
@@ -690,10 +706,10 @@ def c14_program(cfg):
     forms = []
     for mod in cfg['order']:
         defs, exports = cfg[mod]
-        text = c14_module_text(mod, defs, exports)
+        text = c14_module_text(mod, defs, exports, cfg)
         forms.append(f'(load-all "{text}" "{mod}")')
     for n in cfg['default'][0]:
-        forms.append(f"(define (quote {n}) {VAL[('default', n)]} (list))")
+        forms.append(f"(define (quote {n}) {c14_val(cfg, 'default', n)[0]} (list))")
     queries = []
     for n in ('x', 'y'):
         queries.append((('sym', n, 'default'), n))
@@ -720,7 +736,7 @@ def c14_expected(cfg, q):
         _, name, home = q
         vis = c14_visible(cfg, name, home)
         src = 'eval' if q[0] == 'sym' else 'with-current-module'
-        if len(vis) == 1: return ('ok', str(VAL[(vis[0], name)]))
+        if len(vis) == 1: return ('ok', c14_val(cfg, vis[0], name)[1])
         if not vis: return ('sig', f'(kind unbound-symbol source {src} symbol {name})')
         # a symbol typed at top level meets macro expansion first, which resolves symbols too; inside a closure body it is eval
         if q[0] == 'sym' and home == 'default': src = 'macroexpand'
@@ -728,7 +744,7 @@ def c14_expected(cfg, q):
     if q[0] == 'from':
         _, name, mod = q
         defs, exports = cfg[mod]
-        if name in defs and (exports is None or name in exports): return ('ok', str(VAL[(mod, name)]))
+        if name in defs and (exports is None or name in exports): return ('ok', c14_val(cfg, mod, name)[1])
         return ('sig', f'(kind unbound-symbol source from-module symbol {name})')
     _, name = q
     mods = sorted(m for m in ('default', 'ma', 'mb') if name in cfg[m][0])
@@ -1082,7 +1098,7 @@ class TrapAst:
         if c == 'when': return f'(when t {text})', out
         if c == 'block': return f'(block 1 {text})', out
         if c == 'cond':
-            return f"(if {text} 'yes 'no)", (('ok', 'yes') if out[0] == 'ok' else out)
+            return f"(if {text} 'yes 'no)", ((('ok', 'no') if out[1] == '()' else ('ok', 'yes')) if out[0] == 'ok' else out)
         if c == 'operator':
             if out[0] == 'ok':
                 return f'(car (list {text}))', out
@@ -1094,7 +1110,11 @@ class TrapAst:
         self.n += 1
         n = self.n
         body, out = self.gen(depth - 1)
-        h = r.choice(['return', 'return', 'resignal', 'value', 'abort', 'nested', 'symbol', 'cell', 'cell-reads'])
+        h = r.choice(['return', 'return', 'resignal', 'value', 'abort', 'nested', 'symbol', 'cell', 'cell-reads', 'empty', 'empty-cell'])
+        if h in ('empty', 'empty-cell'):
+            # a handler that is the empty list: a trapped signal gives nil — an abort still passes
+            text = f'(eval (trap {body} ()))' if h == 'empty' else f'(eval (make-trap (macroexpand (quote {body})) {r.choice(["nil", "()", "(list)"])}))'
+            return text, (('ok', '()') if out[0] == 'sig' else out)
         if h == 'symbol':
             # the handler is the bare variable: the value of the trap is the signal itself
             text = f'(eval (trap {body} *trapped-signal*))'
@@ -1549,8 +1569,8 @@ def c15_viewer_history(rng):
         n = rng.choice(names)
         k = rng.random()
         if k < 0.3:
-            v = rng.randint(0, 99)
-            forms.append(f"(define '{n} {v} \"\")")
+            v = rng.choice([rng.randint(0, 99), rng.randint(0, 99), '()', '()'])        # a global bound to the empty list IS defined
+            forms.append(f"(define '{n} {v if v != '()' else rng.choice(['()', 'nil', '(list)'])} \"\")")
             if n in table:
                 expected.append(('sig', 'already-defined'))
             else:
@@ -1879,9 +1899,30 @@ C09_EXPECTED = {
 
 def c09_correspond(run, rng, tier):
     forms = c09_forms(rng, 700 if tier == 'quick' else 12000)
+    # every third form a second time with collections forced in the middle of the expansion (every 11th / 37th allocation,
+    # freed cells poisoned): expansion must not depend on where a collection lands
+    scheds = [None] * len(forms)
+    extra = forms[::3]
+    scheds += [rng.choice(['every:11', 'every:37', 'lcg:%d:48' % rng.randrange(1 << 30)]) for _ in extra]
+    forms = forms + extra
+    # forms whose expansion needs several passes (try expands into eval / trap / case) after other macro calls of the same form
+    # have been taken apart, each under forced collection schedules: a collection landing between two passes of ONE expansion
+    # must not change the result.  Values known outright.
+    expected = dict(C09_EXPECTED)
+    fill = [("(let (a 1 b 2) a)", '1'), ("(case ((= 1 2) 'x) (t 'y))", 'y'), ("(block 1 2)", '2'), ("(when t 3)", '3'), ("(and 1 2)", '2'), ("0", '0'), ("(or nil 4)", '4'),
+            ("(try (throw 'kind 'k2) (catch k2 (lambda (e) 6)))", '6')]
+    for _ in range(150 if tier == 'quick' else 3000):
+        pre = [rng.choice(fill) for _ in range(rng.randint(0, 7))]
+        tail, tv = rng.choice([("(try (throw 'kind 'boom) (catch boom (lambda (e) 7)) (catch-all (lambda (e) 8)))", '7'), ("(try (car 5) (catch boom (lambda (e) 7)) (catch-all (lambda (e) 8)))", '8'),
+                               ("(try (signal 'plain) (catch-all (lambda (e) (when e 9))))", '9'), ("(let (r (try (throw 'kind 'boom) (catch boom (lambda (e) (and e 5))))) r)", '5')])
+        x = '(list ' + ' '.join([f for f, _ in pre] + [tail]) + ')'
+        expected[x] = '(' + ' '.join([v for _, v in pre] + [tv]) + ')'
+        for sc in ('every:37', 'every:3', rng.choice(['every:11', 'every:5', 'lcg:%d:48' % rng.randrange(1 << 30)])):
+            forms.append(x)
+            scheds.append(sc)
     sessions = []
-    for x in forms:
-        sessions.append(['new prelude',
+    for x, sc in zip(forms, scheds):
+        sessions.append(['new prelude'] + ([f'sched {sc}', 'poison 1'] if sc else ['echo natural', 'echo -']) + [
                          'eval ' + hexs(f"(eval (quote {x}))"),
                          'eval ' + hexs(f"(eval (macroexpand (quote {x})))"),
                          'eval ' + hexs(f"(print (macroexpand (macroexpand (quote {x}))))"),
@@ -1903,15 +1944,15 @@ def c09_correspond(run, rng, tier):
             return re.sub(r'%0 \(cons %x.*', '%0 (cons %x …', p, flags=re.S)
         return [(k, mask(p)) for (k, p, _) in res], re.sub(r'0x[0-9a-f]+', '0x?', tr.get('out') or '')
     for x, r in zip(forms, real):
-        if len(r) < 6:
+        if len(r) < 8:
             dist['timeout-or-died'] += 1
             failures.append({'expression': x, 'problem': f'expansion or evaluation did not terminate / driver died: {r[-1][:100] if r else r}'})
             continue
-        a, b, c2, c1, d = (strip_dump(r[i]) for i in (1, 2, 3, 4, 5))
+        a, b, c2, c1, d = (strip_dump(r[i]) for i in (3, 4, 5, 6, 7))
         kind = a[0][0][0] if a and a[0] else '?'
         dist[{'ok': 'value', 'sig': 'signal', 'abort': 'abort'}.get(kind, 'signal')] += 1
-        if x in C09_EXPECTED and (not a or not a[0] or a[0][0] != ('ok', C09_EXPECTED[x])):
-            failures.append({'expression': x, 'expected': C09_EXPECTED[x], 'real': str(a[0][0] if a and a[0] else a)[:300],
+        if x in expected and (not a or not a[0] or a[0][0] != ('ok', expected[x])):
+            failures.append({'expression': x, 'expected': expected[x], 'real': str(a[0][0] if a and a[0] else a)[:300],
                              'problem': 'a macro call was not expanded and evaluated in place of the call (the macro received evaluated operands, or its result came back as data)'})
         elif a != b:
             failures.append({'expression': x, 'problem': 'evaluating the form and evaluating its expansion differ', 'eval': str(a)[:300], 'eval_of_expansion': str(b)[:300]})
@@ -1981,6 +2022,10 @@ def c06_native_calls(rng, tier):
               "(make-function '() '(add 1 2) '() 'native 'lambda-type)", "(make-function '() '(-length (list 1) 0) '() 'prelude 'lambda-type)", "(make-function '() '(-length (list 1) 0) '() 'default 'lambda-type)"]:
         for args in ['', '1', '1 2', "'(1)"]:
             calls.append(f'(({f}) {args})' if False else f'({f} {args})')
+    for name in ["(gensym)", "(type-of 1)", "(get-current-module)", "(car (list 'zq1))", "'zq2"]:
+        for value in ["car", "t", "nil", "5", "'a", '"s"', "(lambda (x) x)", "(list 1 2)", "foldl", "*stdin*"]:
+            for doc in ['"documented"', '""', "(list %d)"]:
+                calls.append(f"(define {name} {value} {doc})")
     calls += ["(call-native-function eval (list 'x) 5)", "(call-native-function eval (list 'x) '((x . 1)))", "(call-native-function car (cons 1 2) ())", "(call-native-function print '(1) '(2))",
               "(read \"x\" 'stdin 0 1)", "(read \"x\" 'stdin 1 0)", "(read \"x\" 'stdin -9223372036854775808 -9223372036854775808)", "(read \"x\" 'stdin 9223372036854775807 9223372036854775807)",
               "(read \"x\\ny\" 'stdin 9223372036854775807 9223372036854775807)", "(read '(1 2) 'stdin 1 1)", "(read (cons %a 5) 'stdin 1 1)", "(read \"a\" \"file\" 1 1)", "(read \"a\" 'nowhere 1 1)",
@@ -2454,6 +2499,11 @@ def c16_cases(rng, tier):
                         value = f'v{i}' if vals[i] else '()'
                         decided = True
             m('(case ' + ' '.join(text) + ')', value, trace)
+    # lists far longer than the recursion depth limit: the documented result holds for ALL lists (foldr and init recurse by design)
+    for expr, value in [("(length (zip (range 3000) (range 3000)))", '3000'), ("(cdr (last (enumerate (range 3000))))", '2999'), ("(car (last (zip (range 3000) (range 3000))))", '2999'),
+                        ("(length (map (lambda (x) (add x 1)) (range 3000)))", '3000'), ("(car (reverse (range 3000)))", '2999'), ("(foldl add 0 (range 3000))", str(3000 * 2999 // 2)),
+                        ("(length (append (range 3000) (range 3000)))", '6000'), ("(apply + (range 3000))", str(3000 * 2999 // 2)), ("(last (range 3000))", '2999')]:
+        m(expr, value, [])
     # try with signals of every shape: a catcher for another kind never interferes, whatever the signal looks like
     for sig, shown in [("(list 1 2 3)", '(1 2 3)'), ("(quote (a b kind))", '(a b kind)'), ("(quote (kind))", '(kind)'), ("(list \"file not found\" 42)", '("file not found" 42)'), ("5", '5'),
                        ("\"text\"", '"text"'), ("(cons 1 2)", '(cons 1 2)'), ("(quote (kind other))", '(kind other)'), ("(quote (1 kind boom))", '(1 kind boom)')]:
